@@ -328,6 +328,14 @@ def handle (op : String) : P String :=
       match utf8Decode b with
       | some t => pure ("ok 1 " ++ outText t)
       | none => pure "ok 0"
+  | "clean" => do
+      -- kind (0 json / 1 file), decode result (0 doc / 1 filtered / 2 failed), n writes, clean?, fault step (or 999999 = none)
+      let kind ← pNum; let dr ← pNum; let n ← pNum; let clean ← pBool; let f ← pNum; pEnd
+      let d : DecodeResult := if dr = 0 then .doc else if dr = 1 then .filtered else .failed
+      let tr := if kind = 0 then cleanJsonTrace d n clean (fun k => k == f) else cleanFileTrace d clean (fun k => k == f)
+      let evName : Ev → String
+        | .openOut => "open" | .write => "write" | .closeOut => "close" | .print => "print" | .flushStdout => "flush" | .removeIn => "remove"
+      pure ("ok " ++ outList (fun p => evName p.1 ++ (if p.2 then "+" else "!")) tr ++ " " ++ outBool (inputRemoved tr))
   | "timestamp" => do
       let t ← pNum; pEnd
       pure ("ok " ++ outText (formatTimestamp t))
